@@ -2,7 +2,7 @@
 from engine.h4v import H, libhdf_units
 
 META = dict(
-    bounds=["K2: Vgroup member count over the full uint16 range", "K1: full int32 range for end-of-file offset, block size, element length and seek position; transfers 1..4 bytes"],
+    bounds=["K2: Vgroup member count at 0, 1, 65534, 65535 (tag/ref symbolic)", "K1: full int32 range for end-of-file offset, block size, element length and seek position; transfers 1..4 bytes"],
     stubs=["stdio = models/memio.c with a sparse tail (bytes beyond the model disk are not stored)", "error stack = codes only", "malloc never fails"],
     outside=["65536 references per tag as a history", "257 fields at scenario level"],
     manifest=dict(
@@ -19,6 +19,7 @@ def plan(ctx, tier, seed):
         hs.append(H("C20.K1." + nm, "C20", src="harness/C20/k1_eof.c", units=libhdf_units(), models=["memio", "herr", "memloops", "printf"],
                     defs={"MODE": mode, "MEMIO_DISK_SZ": 1024}, unwind=5000, kind="K", timeout=600,
                     symbolic="end_off, block size, length, position over all int32; cache flag; payload", bound="transfers <= 4 bytes"))
-    hs.append(H("C20.K2.members", "C20", src="harness/C20/k2_counts.c", units=["hdf/src/vgp.c"], models=["herr"], defs={}, unwind=4, kind="K", timeout=600,
-                field_sens=16, symbolic="member count 0..65535, tag, ref", bound="one insertion from any valid state"))
+    for n0 in (0, 1, 65534, 65535):
+        hs.append(H("C20.K2.members.n%d" % n0, "C20", src="harness/C20/k2_counts.c", units=libhdf_units(), models=["memio", "herr", "memloops", "printf"], defs={"N0": n0, "MSIZE": 65600},
+                    unwind=4, kind="K", timeout=600, field_sens=16, symbolic="tag, ref", bound="member count %d (limits enumerated)" % n0, group="C20.K2"))
     return hs
